@@ -30,6 +30,20 @@ Definition tag_name (t : str) : str :=
 Definition tag_of (field : str) (tags : list (str * str)) : str :=
   match find (fun p => str_eqb (fst p) field) tags with Some p => tag_name (snd p) | None => [] end.
 
+(* ------------------------------------------------------------------ regular expressions
+   The models' matchers were transcribed by hand from these five patterns (regexp itself is a named contract, DESIGN.md);
+   the ties state that the patterns of the source are still exactly the ones transcribed. *)
+(* Model/Ssa.v split_effects - \{[^\{]+\} *)
+Definition re_ssa_effect : str := [92; 123; 91; 94; 92; 123; 93; 43; 92; 125].
+(* Model/Ttml.v ttml_time (clock time with frames) - ^[^:]*:[^:]*:[^:]*(\:[\d]+)$ *)
+Definition re_ttml_clock_frames : str := [94; 91; 94; 58; 93; 42; 58; 91; 94; 58; 93; 42; 58; 91; 94; 58; 93; 42; 40; 92; 58; 91; 92; 100; 93; 43; 41; 36].
+(* Model/Ttml.v ttml_time (offset time) - ^(\d+(\.\d+)?)(h|m|s|ms|f|t)$ *)
+Definition re_ttml_offset : str := [94; 40; 92; 100; 43; 40; 92; 46; 92; 100; 43; 41; 63; 41; 40; 104; 124; 109; 124; 115; 124; 109; 115; 124; 102; 124; 116; 41; 36].
+(* Model/Vtt.v inline timestamps - <((?:\d{2,}:)?\d{2}:\d{2}\.\d{3})> *)
+Definition re_vtt_inline_ts : str := [60; 40; 40; 63; 58; 92; 100; 123; 50; 44; 125; 58; 41; 63; 92; 100; 123; 50; 125; 58; 92; 100; 123; 50; 125; 92; 46; 92; 100; 123; 51; 125; 41; 62].
+(* Model/Vtt.v tag tokens - (</*\s*([^\.\s]+)(\.[^\s/]* )*\s*([^/]* )\s*/*>) *)
+Definition re_vtt_tag : str := [40; 60; 47; 42; 92; 115; 42; 40; 91; 94; 92; 46; 92; 115; 93; 43; 41; 40; 92; 46; 91; 94; 92; 115; 47; 93; 42; 41; 42; 92; 115; 42; 40; 91; 94; 47; 93; 42; 41; 92; 115; 42; 47; 42; 62; 41].
+
 (* ------------------------------------------------------------------ SubRip *)
 Module SrtTie.
 Import Model.Srt.
@@ -64,7 +78,8 @@ Definition ties : list bool :=
   ; mem (k_width ++ [61]) wr
   ; mem (k_align ++ [58]) wr; mem (k_line ++ [58]) wr; mem (k_position ++ [58]) wr; mem (k_regionk ++ [58]) wr
   ; mem (k_size ++ [58]) wr; mem (k_vertical ++ [58]) wr
-  ; mem k_local gc_strs_parseWebVTTTimestampMap; mem k_mpegts gc_strs_parseWebVTTTimestampMap ].
+  ; mem k_local gc_strs_parseWebVTTTimestampMap; mem k_mpegts gc_strs_parseWebVTTTimestampMap
+  ; eqs re_vtt_inline_ts gc_re_webVTTRegexpInlineTimestamp; eqs re_vtt_tag gc_re_webVTTRegexpTag ].
 Lemma consts_from_source : all ties = true.
 Proof. vm_compute. reflexivity. Qed.
 End VttTie.
@@ -114,7 +129,8 @@ Definition ties : list bool :=
     (* writer *)
   ; mem n_v4plus wr; mem (10 :: n_styles_hdr_v4 ++ [10]) wr; mem (10 :: n_styles_hdr_v4p ++ [10]) wr
   ; mem (10 :: n_events_hdr ++ [10]) wr; mem n_format_pfx wr; mem n_style_pfx wr
-  ; mem n_script_info_hdr gc_strs_ssaScriptInfo_bytes ].
+  ; mem n_script_info_hdr gc_strs_ssaScriptInfo_bytes
+  ; eqs re_ssa_effect gc_re_ssaRegexpEffect ].
 Lemma consts_from_source : all ties = true.
 Proof. vm_compute. reflexivity. Qed.
 End SsaTie.
@@ -144,7 +160,9 @@ Definition ties : list bool :=
   ; eqs (tag_of [66; 101; 103; 105; 110] gc_xmltags_TTMLOutSubtitle) s_begin      (* Begin *)
   ; eqs (tag_of [69; 110; 100] gc_xmltags_TTMLOutSubtitle) s_end                  (* End *)
   ; eqs (tag_of [66; 101; 103; 105; 110] gc_xmltags_TTMLInSubtitle) s_begin
-  ; eqs (tag_of [69; 110; 100] gc_xmltags_TTMLInSubtitle) s_end ].
+  ; eqs (tag_of [69; 110; 100] gc_xmltags_TTMLInSubtitle) s_end
+  ; eqs re_ttml_clock_frames gc_re_ttmlRegexpClockTimeFrames; eqs re_ttml_offset gc_re_ttmlRegexpOffsetTime ].
 Lemma consts_from_source : all ties = true.
 Proof. vm_compute. reflexivity. Qed.
 End TtmlTie.
+
